@@ -63,6 +63,7 @@ type Contract struct {
 	Loops     map[int]*LoopSpec
 	Ranges    map[int]*RangeSpec
 	Callsites []CallsiteSpec
+	Uses      []Clause
 	Decreases ast.Expr
 	Iface     bool
 	Src       string
@@ -123,7 +124,7 @@ func newContractSet() *ContractSet {
 var clauseKeywords = map[string]bool{
 	"func": true, "interface": true, "type": true, "ghost": true, "spec": true, "lemma": true, "syncmap": true,
 	"props": true, "requires": true, "ensures": true, "modifies": true, "nopanic": true, "maypanic": true,
-	"inline": true, "assumed": true, "pure": true, "loop": true, "range": true, "callsite": true, "decreases": true,
+	"inline": true, "assumed": true, "pure": true, "use": true, "loop": true, "range": true, "callsite": true, "decreases": true,
 }
 
 func firstWord(s string) string {
@@ -436,6 +437,15 @@ func (c *Contract) addClause(kw, rest string) error {
 			return err
 		}
 		c.Modifies = append(c.Modifies, x.(*ast.CallExpr).Args...)
+	case "use":
+		x, err := parser.ParseExpr(rest)
+		if err != nil {
+			return err
+		}
+		if _, ok := x.(*ast.CallExpr); !ok {
+			return fmt.Errorf("use expects a lemma call")
+		}
+		c.Uses = append(c.Uses, Clause{Label: funName(x.(*ast.CallExpr).Fun), Expr: x, Src: rest})
 	case "nopanic":
 		c.NoPanic = true
 	case "maypanic":
